@@ -77,7 +77,7 @@ Proof.
 Qed.
 
 (* the default value of an unmatched Opt (a scalar) *)
-Lemma init_view_scalar v nm asl m : scalar_tok v = true ->
+Lemma init_view_scalar v nm asl m : default_ok v = true ->
   view (pr_init (RList [v]) nm asl m) = nt_bind (AV [tview v] [] []) nm m (seq_value asl [tview v]).
 Proof.
   intros Hs. unfold pr_init, pr_init_gen. destruct nm as [[|c n]|]; try reflexivity.
@@ -448,8 +448,6 @@ Proof.
         rewrite ?K. cbn [orb].
         unfold step_k. destruct default as [v|].
         -- unfold opt_ok in Hok. apply andb_prop in Hok as [Hsc Hm].
-           assert (scalar_tok v = true) as Hsc' by (destruct v; try discriminate Hsc; reflexivity).
-           clear Hsc. rename Hsc' into Hsc.
            destruct (rsname (attrs_of c)) as [[|c0 n0]|] eqn:En; rewrite finish_n by exact He';
              unfold ngood; cbn [run nproj post_parse attrs_of opt_default].
            ++ rewrite init_view_scalar by exact Hsc. reflexivity.
